@@ -17,9 +17,22 @@
                                                   hypothesis holds for what `Distribute` iterates
                                                   (distribute_data_sorted); state level: paging_never_overserves
                                                   (no EndBlock hands out more than was pending, any limit).
-                                                  FALSE at state level as long as D3 stands: paging_midepoch_counterexample.
-                                                  NOT proved at state level even without D3: that nothing pending
-                                                  is lost over an epoch (two-run equality); regression + differential run.
+                                                  STATE LEVEL, one epoch (§4b): endblock_conserves_settled (distributed +
+                                                  pending is conserved EXACTLY by every EndBlock, any limit),
+                                                  epoch_end_realises_settled, paging_state_independent (ANY two schedules of
+                                                  limits: at the epoch end every stream of the epoch has handed out the same,
+                                                  a function of the state at the start of the window).  Exclusions, each with
+                                                  its counterexample: mid-epoch activation D3 (paging_midepoch_counterexample),
+                                                  the stream under the pointer terminated = ¬PtrsOKS
+                                                  (paging_pointer_terminated_counterexample), re-targeting
+                                                  (stream_bounded_retarget_counterexample); a record naming a finished /
+                                                  unknown gauge is skipped by the code (LiveS).
+                                                  GAUGE SIDE: FALSE of the code, inside the quantifier — a gauge that
+                                                  distributes nothing in the call it is funded in is not written back, its
+                                                  share is stranded; which block serves it depends on the limit:
+                                                  paging_gauge_side_counterexample (known finding
+                                                  C15/stream_hands_to_gauges/share-moved-gauge-not-credited).
+                                                  Whole blocks: begin_block_pays_exactly, end_block_pays_exactly.
     exact amounts (state level) ................ distribute_pays_exactly, distribute_gauges_exactly, endBlock_pays_exactly, end_step_pays_exactly,
                                                   asset_due_is_sum_of_lockRewards (what an account gains in a distribution
                                                   is Σ lockReward over its qualifying locks, over the gauges distributed)
@@ -37,6 +50,9 @@ import DymVerif.Lemmas.IncentPaging
 import DymVerif.Lemmas.IncentShare
 import DymVerif.Lemmas.GenEqIncent
 import DymVerif.Lemmas.IncentProp
+import DymVerif.Lemmas.IncentDue
+import DymVerif.Lemmas.IncentPagingState
+import DymVerif.Lemmas.IncentLive
 namespace DymVerif.C15
 open DymVerif DymVerif.Incent DymVerif.Incent.Coins
 
@@ -365,6 +381,154 @@ theorem paging_never_overserves (s s' : State) (hi : Inv s) (h : streamerEndBloc
     rw [← h10]
     exact b5 i
 
+
+/-! ## 4b. state level: what a stream hands out over an epoch does not depend on the per-block limit -/
+
+/-- **every streamer EndBlock, EVERY value of the iteration limit (0 included)**: for every active stream
+    `distributed + (shares of its records at or after its epoch's stored pointer)` is the same before and after —
+    EQUALITY (`paging_never_overserves` has `≤`); nothing else about the stream changes, the active list, the iterated
+    list and the resumability of the pointers are kept.  Hypotheses: the invariant of the admissible histories;
+    every record of an active stream names a gauge the code accepts (`LiveS`); the stored pointers are resumable
+    (`PtrsOKS`: at a first gauge, or naming an active stream of their own epoch, or past every stream). -/
+theorem endblock_conserves_settled (s s' : State) (hi : Inv s) (hl : LiveS s) (hp : PtrsOKS s) (h : streamerEndBlock s = .ok s') :
+    (∀ st0 ∈ s.streams, st0.id ∈ s.active.ids → ∃ st', getS s'.streams st0.id = some st' ∧
+        st' = { st0 with distributed := st'.distributed } ∧ ∀ i, Settled s' st' i = Settled s st0 i) ∧
+    s'.active = s.active ∧ dataOf s' = dataOf s ∧ PtrsOKS s' :=
+  let ⟨a, b, _, c, d⟩ := endBlock_settled s s' hi hl hp h
+  ⟨a, b, c, d⟩
+
+/-- … and the EndBlock keeps `LiveS` (a gauge's liveness reads its start, perpetual flag, filled and total epochs; the
+    EndBlock writes back cached copies of live gauges with more coins / distributed coins only), so the three
+    hypotheses of `endblock_conserves_settled` hold again in the next block -/
+theorem endblock_keeps_live (s s' : State) (hi : Inv s) (hl : LiveS s) (hp : PtrsOKS s) (h : streamerEndBlock s = .ok s') :
+    Inv s' ∧ LiveS s' ∧ PtrsOKS s' :=
+  ⟨endBlock_inv s s' hi h, endBlock_live s s' hi hl hp h, (endBlock_settled s s' hi hl hp h).2.2.2.2⟩
+
+/-- one block of a schedule IS the two operations `setMaxIter n; end` -/
+theorem block_is_two_ops (s s' : State) (n : Nat) (hh : s.halted = false) (h : streamerEndBlock { s with maxIter := n } = .ok s') :
+    (step (step s (.setMaxIter n)).2 .end_) = (.ok, s') := by
+  have h1 : (step s (.setMaxIter n)).2 = { s with maxIter := n } := by unfold step; simp [hh]
+  rw [h1]
+  unfold step
+  have h2 : ({ s with maxIter := n } : State).halted = false := hh
+  rw [if_neg (by rw [h2]; decide)]
+  simp only [h]
+
+/-- **the epoch-end flush** hands every active stream of the ending epoch exactly what was still pending: its
+    distributed coins become the settled amount -/
+theorem epoch_end_realises_settled (s s' : State) (e : Nat) (he : e ≤ 2) (hi : Inv s) (hl : LiveS s) (hp : PtrsOKS s)
+    (hsmall : (s.locks.length + 1) * totalRecs (dataOf s) < maxU64) (h : streamerAfterEpochEnd s e = .ok s') :
+    ∀ st0 ∈ s.streams, st0.id ∈ s.active.ids → st0.epochId = e →
+      ∃ D, getS s'.streams st0.id = some ({ st0 with distributed := D } : Stream).atEpochEnd ∧ ∀ i, amt D i = Settled s st0 i :=
+  flush_settled s s' e he hi hl hp hsmall h
+
+/-- **ANY two schedules of per-block iteration limits** (lists of any lengths, any values — `runBlocks s ns` runs
+    `setMaxIter n; end` for each `n`), from the same state `s`, each followed by the end of epoch `e`: every stream of
+    that epoch active in `s` is stored with THE SAME distributed coins in both runs (equal as coins, every other field
+    equal), namely `Settled s` — a function of the starting state alone.
+    The window contains blocks only: an epoch boundary of ANOTHER identifier inside it activates due streams in the
+    middle of their epoch (D3, `paging_midepoch_counterexample`), termination of the stream under the pointer breaks
+    `PtrsOKS` (`paging_pointer_terminated_counterexample`), re-targeting changes the shares
+    (`stream_bounded_retarget_counterexample`); `hsmall`: lock count × record count below 2^64-1 (the epoch-end budget). -/
+theorem paging_state_independent (s : State) (e : Nat) (he : e ≤ 2) (hi : Inv s) (hp : PtrsOKS s)
+    (hsmall : (s.locks.length + 1) * totalRecs (dataOf s) < maxU64)
+    (ns1 ns2 : List Nat) (t1 t2 u1 u2 : State) (hl : LiveS s)
+    (h1 : runBlocks s ns1 = some t1) (h2 : runBlocks s ns2 = some t2)
+    (f1 : streamerAfterEpochEnd t1 e = .ok u1) (f2 : streamerAfterEpochEnd t2 e = .ok u2) :
+    ∀ st0 ∈ s.streams, st0.id ∈ s.active.ids → st0.epochId = e →
+      ∃ a b, getS u1.streams st0.id = some a ∧ getS u2.streams st0.id = some b ∧
+        b = { a with distributed := b.distributed } ∧
+        ∀ i, amt a.distributed i = amt b.distributed i ∧ amt a.distributed i = Settled s st0 i := by
+  intro st0 hm ha hep
+  have side : ∀ (ns : List Nat) (t u : State), LiveAlong s ns → runBlocks s ns = some t → streamerAfterEpochEnd t e = .ok u →
+      ∃ D, getS u.streams st0.id = some ({ st0 with distributed := D } : Stream).atEpochEnd ∧ ∀ i, amt D i = Settled s st0 i := by
+    intro ns t u hl hr hf
+    obtain ⟨r1, r2, r3, r4, r5, r6, r7⟩ := blocks_settled ns s t hi hp hl hr
+    obtain ⟨st1, a1, a2, a3⟩ := r7 st0 hm ha
+    have hid1 : st1.id = st0.id := by rw [a2]
+    obtain ⟨D, d1, d2⟩ := flush_settled t u e he r1 r3 r2 (by rw [r5, r6]; exact hsmall) hf st1 (mem_of_getS a1)
+      (by rw [hid1, r4]; exact ha) (by rw [a2]; exact hep)
+    refine ⟨D, ?_, fun i => (d2 i).trans (a3 i)⟩
+    rw [← hid1, d1, a2]
+  obtain ⟨D1, p1, q1⟩ := side ns1 t1 u1 (liveAlong_of_live ns1 s hi hp hl) h1 f1
+  obtain ⟨D2, p2, q2⟩ := side ns2 t2 u2 (liveAlong_of_live ns2 s hi hp hl) h2 f2
+  refine ⟨_, _, p1, p2, ?_, ?_⟩
+  · unfold Stream.atEpochEnd
+    split <;> rfl
+  · intro i
+    have e1 : amt (({ st0 with distributed := D1 } : Stream).atEpochEnd).distributed i = amt D1 i := by
+      unfold Stream.atEpochEnd; split <;> rfl
+    have e2 : amt (({ st0 with distributed := D2 } : Stream).atEpochEnd).distributed i = amt D2 i := by
+      unfold Stream.atEpochEnd; split <;> rfl
+    rw [e1, e2, q1 i, q2 i]
+    exact ⟨rfl, rfl⟩
+
+/-- THE GAUGE SIDE of the clause —
+      ∀ ops mi mi', Admissible ops → (run (init now mi) ops).gauges.map (·.coins) = (run (init now mi') ops).gauges.map (·.coins)
+    (`Admissible`, §5: every op well-formed, no governance re-targeting)
+    — is FALSE of the code, inside the property's quantifier (gauges, a stream, a lock arriving between two blocks,
+    limits 1 and 500; no governance).  x/incentives `Distribute` writes a gauge handed in by the streamer back only
+    when it distributes something in the same call; gauge 2 (denom 1) has no qualifying lock when the stream's share
+    reaches it with limit 500 (first block of the epoch) — its 2000 are stranded in the incentives account and
+    account 2 is never paid; with limit 1 it is served one block later, after the lock: it receives 2000 and pays
+    account 2.  The stream side is the same in both runs (4000 handed out), as `paging_state_independent` says. -/
+def strandedHistory (mi : Nat) : List Op :=
+  [.setMaxIter mi, .begin 1, .end_, .createGauge 0 true 0 3600 true [] 101 1, .createGauge 0 true 1 3600 true [] 101 1,
+   .locks [⟨1, 0, 100, 3600⟩],
+   .fund streamerAddr [4000], .createStream false [4000] [⟨1, 1⟩, ⟨2, 1⟩] 101 1 2,
+   .begin 3601, .end_, .begin 3601, .end_, .locks [⟨1, 0, 100, 3600⟩, ⟨2, 1, 50, 3600⟩], .begin 10, .end_, .begin 10, .end_,
+   .begin 3601, .end_, .begin 3601, .end_]
+
+theorem paging_gauge_side_counterexample :
+    (run (init 100 500) (strandedHistory 1)).gauges.map (fun g => (g.coins, g.distributed)) = [([2000], [2000]), ([2000], [2000])] ∧
+    (run (init 100 500) (strandedHistory 500)).gauges.map (fun g => (g.coins, g.distributed)) = [([2000], [2000]), ([], [])] ∧
+    (run (init 100 500) (strandedHistory 1)).bank.get 2 = [2000] ∧ (run (init 100 500) (strandedHistory 500)).bank.get 2 = [] ∧
+    (run (init 100 500) (strandedHistory 500)).bank.get incAddr = [2000] ∧
+    (run (init 100 500) (strandedHistory 1)).streams.map (fun s => (s.distributed, s.filled)) = [([4000], 2)] ∧
+    (run (init 100 500) (strandedHistory 500)).streams.map (fun s => (s.distributed, s.filled)) = [([4000], 2)] ∧
+    (∀ op ∈ strandedHistory 1, op.wf ∧ op.wfS ∧ op.noRetarget) ∧ (∀ op ∈ strandedHistory 500, op.wf ∧ op.wfS ∧ op.noRetarget) := by
+  refine ⟨by decide, by decide, by decide, by decide, by decide, by decide, by decide, by decide, by decide⟩
+
+/-- the excluded case `¬ PtrsOKS`: stream 1 is terminated while the `hour` pointer points into it (stream 1, gauge 2);
+    `NewStreamIterator` bisects to stream 2 but keeps gauge id 2, so stream 2's gauge 1 is skipped and never served:
+    with limit 1 stream 2 hands out 2000 of its 4000 and the epoch still counts; with limit 500 it hands out 4000
+    (known finding C15/paging_independent/pointer-stream-terminated, governance only) -/
+def termHistory (mi : Nat) : List Op :=
+  [.setMaxIter mi, .begin 1, .end_, .createGauge 0 true 0 1 true [] 101 1, .createGauge 0 true 0 1 true [] 101 1,
+   .locks [⟨1, 0, 100, 3600⟩], .fund streamerAddr [8000],
+   .createStream false [4000] [⟨1, 1⟩, ⟨2, 1⟩] 101 1 2, .createStream false [4000] [⟨1, 1⟩, ⟨2, 1⟩] 101 1 2,
+   .begin 3601, .end_, .begin 3601, .end_, .terminateStream 1, .begin 10, .end_, .begin 10, .end_, .begin 3601, .end_]
+
+theorem paging_pointer_terminated_counterexample :
+    (run (init 100 1) (termHistory 1)).streams.map (fun s => (s.id, s.distributed, s.filled)) = [(1, [2000], 1), (2, [2000], 2)] ∧
+    (run (init 100 1) (termHistory 500)).streams.map (fun s => (s.id, s.distributed, s.filled)) = [(1, [4000], 1), (2, [4000], 2)] ∧
+    (run (init 100 1) ((termHistory 1).take 14)).ptrs.map (fun p => (p.streamId, p.gaugeId)) =
+      [(maxU64, maxU64), (1, 2), (maxU64, maxU64)] ∧
+    (run (init 100 1) ((termHistory 1).take 14)).active.ids = [2] := by
+  refine ⟨by decide, by decide, by decide, by decide⟩
+
+/-! ## 4c. exact amounts over WHOLE BLOCKS (the three-hook `begin` step and the `end` step) -/
+
+/-- **the whole `begin` step** — the epochs BeginBlocker over day, hour, week; per ending epoch the streamer flush,
+    the incentives hook and the streamer epoch start, each inside the error-discarding wrapper — in any state
+    satisfying the gauge invariant: every account other than the two module accounts gains EXACTLY
+    `Σ_{g ∈ beginGauges s dt} dueG s g a` (the gauge values the block's successful distributions were handed) -/
+theorem begin_block_pays_exactly (s : State) (dt : Nat) (hg : GInv s) (a : Nat) (ha : a ≠ streamerAddr) (hb : a ≠ incAddr) (i : Nat) :
+    amt ((beginBlock s dt).bank.get a) i = amt (s.bank.get a) i + blockDue s (beginGauges s dt) a i :=
+  begin_pays_exactly s dt hg a ha hb i
+
+/-- **the whole `end` step**, whatever its outcome -/
+theorem end_block_pays_exactly (s : State) (hg : GInv s) (a : Nat) (ha : a ≠ streamerAddr) (hb : a ≠ incAddr) (i : Nat) :
+    amt ((step s .end_).2.bank.get a) i = amt (s.bank.get a) i + (if s.halted then 0 else blockDue s (endGauges s) a i) :=
+  end_pays_exactly s hg a ha hb i
+
+/-- … along every history (module accounts do not sign): whole blocks pay exactly what the specification says -/
+theorem blocks_pay_exactly_reachable (now mi : Nat) (ops : List Op) (hw : ∀ op ∈ ops, op.wf) (dt : Nat) (a : Nat)
+    (ha : a ≠ streamerAddr) (hb : a ≠ incAddr) (i : Nat) :
+    amt ((beginBlock (run (init now mi) ops) dt).bank.get a) i =
+      amt ((run (init now mi) ops).bank.get a) i + blockDue (run (init now mi) ops) (beginGauges (run (init now mi) ops) dt) a i :=
+  begin_pays_exactly _ dt (run_ginv ops _ (init_ginv now mi) hw) a ha hb i
+
 /-! ## 5. streams -/
 
 /-- **for every epoch coins amount, total weight and record weights adding up to at most the total**: the
@@ -610,5 +774,24 @@ theorem paging_midepoch_counterexample :
 example : (run (init 100 500) overHistory).gauges.all (fun g => !g.distributed.isZero && Coins.le g.distributed g.coins) = true := by decide
 example : (run (init 100 500) overHistory).bank.get 1 = [6000000000000000000] := by decide
 example : ∀ op ∈ overHistory, op.wf := by decide
+
+/-- a window state: in the middle of an `hour` epoch of `unsortedHistory` (reference list [3, 2], stream 2 half
+    served, the `hour` pointer at stream 3 gauge 1) -/
+def windowState : State := run (init 100 1) (unsortedHistory.take 16)
+
+/-- non-vacuity (executed): from that state the schedules [1,1,1], [3], [0,2,500] and [] followed by the end of the
+    `hour` epoch all store the same distributed coins -/
+example : ([[1, 1, 1], [3], [0, 2, 500], []].map (fun ns =>
+      match runBlocks windowState ns with
+      | some t => (match streamerAfterEpochEnd t 1 with
+          | .ok u => u.streams.map (fun st => (st.id, st.distributed))
+          | .error _ => [])
+      | none => [])) = List.replicate 4 [(1, []), (2, [1500]), (3, [1500])] := by decide
+
+/-- non-vacuity (executed): after the second `begin` of `overHistory` the pending `end` pays account 1 the whole stream
+    through gauges 1..6, and so would an epoch-ending `begin` in its place (the flush) -/
+example : (endGauges (run (init 100 500) (overHistory.take 15))).map (·.id) = [1, 2, 3, 4, 5, 6] ∧
+    blockDue (run (init 100 500) (overHistory.take 15)) (endGauges (run (init 100 500) (overHistory.take 15))) 1 0 = 6000000000000000000 ∧
+    blockDue (run (init 100 500) (overHistory.take 15)) (beginGauges (run (init 100 500) (overHistory.take 15)) 3601) 1 0 = 6000000000000000000 := by decide
 
 end DymVerif.C15
